@@ -30,7 +30,7 @@ def sh(cmd, cwd=None, env=None, timeout=3600):
 
 def main():
   args = [a for a in sys.argv[1:] if not a.startswith('--')]
-  seed_dir, pid = args[0], args[1]
+  seed_dir, pid = os.path.abspath(args[0]), args[1]
   name = args[2] if len(args) > 2 else pid
   checks = [pid]
   for a in sys.argv[1:]:
@@ -94,10 +94,12 @@ def main():
   dest = os.path.join(VERIF, 'seeded', name)
   if meta.get('valid_seed'):
     os.makedirs(dest, exist_ok=True)
-    shutil.copy(patch, os.path.join(dest, 'patch.diff'))
-    shutil.copy(demo, os.path.join(dest, 'demo.py'))
+    if os.path.abspath(dest) != seed_dir:
+      shutil.copy(patch, os.path.join(dest, 'patch.diff'))
+      shutil.copy(demo, os.path.join(dest, 'demo.py'))
+      if os.path.exists(os.path.join(seed_dir, 'notes.md')):
+        shutil.copy(os.path.join(seed_dir, 'notes.md'), os.path.join(dest, 'notes.md'))
     if os.path.exists(os.path.join(seed_dir, 'notes.md')):
-      shutil.copy(os.path.join(seed_dir, 'notes.md'), os.path.join(dest, 'notes.md'))
       meta['needs_to_manifest'] = open(os.path.join(seed_dir, 'notes.md')).read()[:1500]
     with open(os.path.join(dest, 'meta.json'), 'w') as f:
       json.dump(meta, f, indent=1)
